@@ -10,7 +10,8 @@ from lib.locals import local_inits as _local_inits, through_locals as _through_l
 
 TECHNIQUE = ("call-graph purity from parser::parse (with a positive control), MIR dominance of the remaining-input and error-log tests over the Ok exit, "
              "who-may-write for ParseString.cursor plus a sibling rule on the column/row bookkeeping, possibly-empty merge_tokens().unwrap() detection, and a "
-             "nullability fixpoint over the nom combinators deciding progress of every hand-written parser loop")
+             "nullability fixpoint over the nom combinators deciding progress of every hand-written parser loop; R13: enumeration of every MIR Assert terminator and panicking-API call on "
+             "the parse path with guard discharge by dominating conditional edges over symbolic operand trees (lib/mirguard.py)")
 EXPLANATION = (
     "Decides structural clauses of C09: (R1) nothing reachable from parser::parse touches files, environment, network, process, clock or randomness (same "
     "text, same outcome; a positive control on the file loader proves the detector fires); (R2) the Ok(tree) exit of parse() is dominated by a test of the "
@@ -25,6 +26,10 @@ EXPLANATION = (
     ' (R10) panicking element reads of the parser are guarded: the grapheme under the cursor is read only after is_empty() was tested false on that path; a constant-index read X[k] only where guards imply X.len() > k; Option/Vec unwraps the function itself tests elsewhere only where the test holds. Reads with a computed index are listed, not decided.'
     " (R11) column arithmetic of the report renderer agrees with the lexer: the length given to an empty line = the value for a missing line = the lexer's first column."
     " (R12) the lexer's row counter advances only under a condition that is false exactly at the last grapheme (the sentinel new-line): decided over a finite table of (grapheme count, index) with single-expression ParseString predicates inlined."
+    " (R13) every potential panic site of the armed kinds (Option/Result unwrap/expect, explicit panic!/unreachable!/todo!, Index on Vec/slice/str incl. ranges, BoundsCheck, usize subtraction, "
+    "division/remainder, Vec::remove/insert/split_at.., RefCell borrows) in a mech_syntax body reachable from parse() or from the report renderer is dominated on the MIR CFG by a guard of a closed "
+    "idiom list (with a no-intervening-mutation check) or is individually reviewed in reviewed_safe.json under a name-free provenance key; a new site has a new key and is reported. Not decided: "
+    "Add/Mul overflow (needs > 2^64 graphemes), assert!/debug_assert! failures, panics inside std/nom bodies, stack depth, and whether a reviewed reason still holds after the code around it changes."
 )
 IMPURE = re.compile(r"^std::fs::|^std::env::|^std::net::|^std::process::|^std::time::|^rand::|^getrandom::|^std::thread::|^std::io::stdin|^std::os::|^tokio::|^reqwest::")
 
@@ -191,6 +196,7 @@ def run(F, rep, tier):
     run_r11(F, rep)
     from rules.c09_rows import run_r12
     run_r12(F, rep, tier)
+    from rules.c09_panics import run_r13; run_r13(F, rep, tier)
 
 
 def run_r3(syn_items, rep):
